@@ -173,6 +173,8 @@ func (l *lexer) emitAtLineColumn(line, column int, typ tokenTyp, length int) {
 	if length > 0 {
 		l.lastTokenType = typ
 		l.src = l.src[length:]
+		// Keep the index of the attribute value relative to src.
+		l.tag.index = max(l.tag.index-length, 0)
 	}
 }
 
